@@ -205,3 +205,77 @@ Proof.
   exact (find_ops_unique_longest tb _ k Hd Hk Hm Hlong).
 Qed.
 End OpLocal.
+
+(* ---------- call notation: pieces and commas ---------- *)
+Section CallLocal.
+Context {D : Type}.
+Variable C : carrier D.
+Variable tb : optable.
+Variable is_literal : str -> option nat.
+Local Notation lex := (lex C tb is_literal).
+
+(* one piece in front of anything *)
+Lemma lex_piece (p : piece (D:=D)) (n fuel : nat) (rest : str) :
+  readable C tb is_literal p (spaces n ++ rest) ->
+  lex (S n + fuel) (ptext C tb p ++ spaces n ++ rest) =
+    (let '(evs, fin) := lex fuel rest in (event_of_token (ptok C p) :: evs, fin)).
+Proof.
+  intros H. pose proof (lex_local C tb is_literal rest [(p, n)] fuel) as L.
+  cbn [all_readable ptexts pcost fold_right snd map fst app] in L. rewrite !app_nil_r in L.
+  replace (S n + 0 + fuel) with (S n + fuel) in L by lia. rewrite <- !app_assoc in L.
+  rewrite (L (conj H I)). destruct (lex fuel rest) as [evs fin]. reflexivity.
+Qed.
+
+Inductive cpiece : Type := CP (p : piece (D:=D)) | CComma.
+Definition cevent (c : cpiece) : event := match c with CP p => event_of_token (ptok C p) | CComma => EComma end.
+Definition ctext (c : cpiece) : str := match c with CP p => ptext C tb p | CComma => [COMMA] end.
+Definition creadable (c : cpiece) (rest : str) : Prop := match c with CP p => readable C tb is_literal p rest | CComma => True end.
+Fixpoint ctexts (items : list (cpiece * nat)) : str :=
+  match items with [] => [] | (c, n) :: tl => ctext c ++ spaces n ++ ctexts tl end.
+Fixpoint call_readable (items : list (cpiece * nat)) (s' : str) : Prop :=
+  match items with
+  | [] => True
+  | (c, n) :: tl => creadable c (spaces n ++ ctexts tl ++ s') /\ call_readable tl s'
+  end.
+Definition ccost (items : list (cpiece * nat)) : nat := fold_right (fun p acc => S (snd p) + acc) 0 items.
+
+Lemma lex_call_local (s' : str) : forall (items : list (cpiece * nat)) fuel,
+  call_readable items s' ->
+  lex (ccost items + fuel) (ctexts items ++ s') =
+    (let '(evs, fin) := lex fuel s' in (map cevent (map fst items) ++ evs, fin)).
+Proof.
+  induction items as [|[c n] items IH]; intros fuel HR; [cbn [ccost fold_right ctexts map app Nat.add]; destruct (lex fuel s'); reflexivity|].
+  cbn [call_readable] in HR. destruct HR as [Hc HR]. specialize (IH fuel HR).
+  cbn [ccost fold_right snd ctexts map fst]. fold (ccost items). rewrite <- !app_assoc.
+  replace (S n + ccost items + fuel) with (S n + (ccost items + fuel)) by lia.
+  destruct c as [p|]; cbn [ctext cevent creadable] in *.
+  - rewrite (lex_piece p n (ccost items + fuel) (ctexts items ++ s') Hc). rewrite IH. destruct (lex fuel s') as [evs fin]. reflexivity.
+  - cbn [app Nat.add]. rewrite lex_cons.
+    change (N.eqb COMMA SPACE) with false. change (N.eqb COMMA LPAR) with false. change (N.eqb COMMA RPAR) with false.
+    change (N.eqb COMMA COMMA) with true. cbn match.
+    rewrite (lex_spaces C tb is_literal n (ccost items + fuel) (ctexts items ++ s')), IH. destruct (lex fuel s') as [evs fin]. reflexivity.
+Qed.
+
+Lemma ctexts_len (items : list (cpiece * nat)) s' : call_readable items s' -> ccost items <= length (ctexts items).
+Proof.
+  induction items as [|[c n] items IH]; intros HR; [cbn; lia|]. cbn [call_readable] in HR. destruct HR as [Hc HR].
+  cbn [ccost fold_right snd ctexts]. fold (ccost items). rewrite !app_length. unfold spaces. rewrite repeat_length. specialize (IH HR).
+  assert (1 <= length (ctext c)); [|lia].
+  destruct c as [p|]; cbn [ctext creadable length] in *; [|lia].
+  pose proof (ptexts_len C tb is_literal [(p, 0)] (spaces n ++ ctexts items ++ s')) as L.
+  cbn [all_readable ptexts pcost fold_right snd spaces repeat app] in L. rewrite !app_nil_r in L. cbn [app] in L. apply L. split; [exact Hc|exact I].
+Qed.
+
+(* a text in call notation: its pieces and commas spell the events of the items l; it is tokenized to the infix notation *)
+Theorem tokenize_call_local (l : list (item (D:=D))) (items : list (cpiece * nat)) :
+  lplain l = true -> map cevent (map fst items) = events_of_list l -> call_readable items [] ->
+  tokenize C tb is_literal (ctexts items) = Ok (infix_of_list l).
+Proof.
+  intros Hp He HR. rewrite (tokenize_factors C tb is_literal).
+  pose proof (ctexts_len items [] HR) as Hlen.
+  pose proof (lex_call_local [] items (S (length (ctexts items)) - ccost items) HR) as H. rewrite app_nil_r in H.
+  replace (ccost items + (S (length (ctexts items)) - ccost items)) with (S (length (ctexts items))) in H by lia.
+  rewrite H. destruct (S (length (ctexts items)) - ccost items) as [|f] eqn:Ef; [lia|]. cbn [CommaRewrite.lex]. rewrite app_nil_r, He.
+  apply rewrite_call_form. exact Hp.
+Qed.
+End CallLocal.
